@@ -295,6 +295,7 @@ func worker(o gen.Opts, from, to int) {
 	}
 	distCounter{w}.add("pool-rounds", poolRounds)
 	distCounter{w}.add("pool-same-object", poolSame)
+	distCounter{w}.add("asm-earlier-requests-on-the-client", preRounds)
 	for j := 0; j < nStress(o); j++ {
 		if i := o.N + j; i >= from && i < to {
 			w.idx = i
